@@ -375,6 +375,18 @@ SITES = [
     ("heading_wrap_low", CORE + "/model/access/default/turn_delays/edge_heading.rs", None, r"angle", r"-180"),
 ]
 
+INTERP = PT + "/routee/prediction/interpolation/interp.rs"
+_ARM = {"1d": r"re:Self::Interp1D\(interp\) => \{(.*?)Self::Interp2D\(interp\) =>",
+        "2d": r"re:Self::Interp2D\(interp\) => \{(.*?)Self::Interp3D\(interp\) =>",
+        "3d": r"re:Self::Interp3D\(interp\) => \{(.*?)Self::InterpND\(interp\) =>",
+        "nd": r"re:fn validate_inputs.*?Self::InterpND\(interp\) => \{(.*?)_ => \(\),"}
+for _arm, _axes in [("1d", [("x", 0)]), ("2d", [("x", 0), ("y", 1)]), ("3d", [("x", 0), ("y", 1), ("z", 2)])]:
+    for _ax, _i in _axes:
+        SITES.append((f"in_grid_{_arm}_{_ax}_low", INTERP, _ARM[_arm], rf"interp\.{_ax}\[0\]", rf"point\[{_i}\]"))
+        SITES.append((f"in_grid_{_arm}_{_ax}_high", INTERP, _ARM[_arm], rf"&point\[{_i}\]", rf"interp\.{_ax}\.last\(\)\.unwrap\(\)"))
+SITES.append(("in_grid_nd_low", INTERP, _ARM["nd"], r"interp\.grid\[i\]\[0\]", r"point\[i\]"))
+SITES.append(("in_grid_nd_high", INTERP, _ARM["nd"], r"&point\[i\]", r"interp\.grid\[i\]\.last\(\)\.unwrap\(\)"))
+
 
 def fn_scope(src, name):
     """text of `fn name(...) ... { body }` by brace matching; None when absent"""
@@ -404,7 +416,12 @@ def site_rel(path, scope, lhs, rhs):
         src = strip_comments(strip_tests(read(path)))
     except OSError:
         return "unknown", "file not found"
-    if scope:
+    if scope and scope.startswith("re:"):
+        m = re.search(scope[3:], src, re.S)
+        if not m:
+            return "unknown", "scope not found"
+        src = m.group(1)
+    elif scope:
         src = fn_scope(src, scope)
         if src is None:
             return "unknown", f"fn {scope} not found"
@@ -446,7 +463,7 @@ def gen_decisions():
     for name, path, scope, lhs, rhs in SITES:
         rel, why = site_rel(path, scope, lhs, rhs)
         rp = os.path.relpath(path, REPO)
-        out.append(f"/-- `{rp}`" + (f", fn `{scope}`" if scope else "") + f": `{lhs} OP {rhs}` (regular expressions) -/")
+        out.append(f"/-- `{rp}`" + (f", fn `{scope}`" if scope and not scope.startswith("re:") else (", inside one match arm" if scope else "")) + f": `{lhs} OP {rhs}` (regular expressions) -/")
         out.append(f"def {name} : Rel := .{rel}")
         if rel == "unknown":
             notes.append(f"{name} ({why})")
